@@ -1345,12 +1345,27 @@ cdef class ParticleArray:
 
         """
         cdef BaseArray src_array, dst_array
+        cdef long si, ei
         for prop_name in source.properties:
             if prop_name in self.properties:
                 src_array = source.get_carray(prop_name)
                 dst_array = self.get_carray(prop_name)
                 stride = self.stride.get(prop_name, 1)
-                dst_array.copy_subset(src_array, start_index, end_index, stride)
+                si, ei = start_index, end_index
+                if stride > 1 and ei < 0:
+                    # copy_subset takes its default end from the number of
+                    # array elements, not particles, and would then write
+                    # stride times past the end of the destination.
+                    si = max(si, 0)
+                    ei = dst_array.length//stride
+                    if si == 0 and start_index < 0 and \
+                       src_array.length != dst_array.length:
+                        raise ValueError(
+                            'Source length should be same as dest length'
+                        )
+                    if (ei - si)*stride > src_array.length:
+                        raise ValueError('Not enough values in source')
+                dst_array.copy_subset(src_array, si, ei, stride)
 
     cpdef copy_over_properties(self, dict props):
         """ Copy the properties from one set to another.
